@@ -35,7 +35,7 @@ def gen_sub(rng, name, inner):
         args = []
         for _ in range(rng.choice([0, 1, 2])):
             if params and rng.random() < 0.6:
-                args.append(gen.gen_symexpr(rng, [("par", p) for p in rng.sample(params, 1)], 1))
+                args.append(gen.gen_symexpr(rng, [("par", p) for p in rng.sample(params, rng.choice([1, 1, min(2, len(params))]))], rng.choice([1, 2]), need_all=True))
             else:
                 args.append(lit(rng))
         body.append(("op", rng.choice(GATES), args, ms))
